@@ -61,6 +61,20 @@ fn dump_instance(storage: &VariableStorage, id: InstanceId, prefix: &str, depth:
                     let _ = write!(out, " {prefix}{name}[{}]={}", lo + j as i64, show(v));
                 }
             }
+            Value::Array(arr) => {
+                // several dimensions: the element at row-major offset `off` is `name[s1,…,sn]`
+                for (off, v) in arr.elements.iter().enumerate() {
+                    let mut rest = off as i64;
+                    let mut subs: Vec<i64> = vec![0; arr.dimensions.len()];
+                    for (d, (lo, hi)) in arr.dimensions.iter().enumerate().rev() {
+                        let len = hi - lo + 1;
+                        subs[d] = lo + rest % len;
+                        rest /= len;
+                    }
+                    let txt: Vec<String> = subs.iter().map(|x| x.to_string()).collect();
+                    let _ = write!(out, " {prefix}{name}[{}]={}", txt.join(","), show(v));
+                }
+            }
             Value::Struct(sv) => {
                 for (f, v) in sv.fields.iter() {
                     let _ = write!(out, " {prefix}{name}.{f}={}", show(v));
@@ -74,7 +88,7 @@ fn dump_instance(storage: &VariableStorage, id: InstanceId, prefix: &str, depth:
 }
 
 /// `frames=<n> Prog.var=Tag:v …` for the given PROGRAM instances.
-fn dump_programs(h: &TestHarness, programs: &[&str]) -> String {
+pub fn dump_programs(h: &TestHarness, programs: &[&str]) -> String {
     let storage = h.runtime().storage();
     let mut s = format!("frames={}", storage.frames().len());
     for p in programs {
@@ -90,7 +104,7 @@ fn error_name(e: &trust_runtime::error::RuntimeError) -> String {
     s.chars().take_while(|c| c.is_alphanumeric()).collect()
 }
 
-fn run_cycle(h: &mut TestHarness) -> String {
+pub fn run_cycle(h: &mut TestHarness) -> String {
     h.runtime_mut()
         .set_execution_deadline(Some(std::time::Instant::now() + std::time::Duration::from_secs(20)));
     let r = h.cycle();
@@ -218,7 +232,7 @@ pub fn frames_program(rng: &mut Rng) -> (String, Vec<(String, String)>) {
     (src, decls)
 }
 
-fn emit_head(out: &mut Out, n: u64, tags: &str, source: &str, decls: &[(String, String)]) {
+pub fn emit_head(out: &mut Out, n: u64, tags: &str, source: &str, decls: &[(String, String)]) {
     out.line(format!("case {n}"));
     out.line(format!("tag oracle-only {tags}"));
     for (slot, tag) in decls {
